@@ -92,7 +92,7 @@ func quorum(vals *types.ValidatorSet, signers map[common.Address]bool) bool {
 }
 
 func (o *nodeObs) hasAllParts(w *World, id types.BlockID) bool {
-	bi := w.Blocks[fmt.Sprintf("%x", id.Hash)]
+	bi := w.blockByID(id)
 	if bi == nil || !bi.Parts.HasHeader(id.PartsHeader) {
 		return false
 	}
@@ -122,7 +122,7 @@ func (s *Safety) OnSign(w *World, i int, rec consensus.VerifSignRecord) {
 		o.signed[sk] = rec
 	}
 	w.archiveFrom(i) // the node's current proposal / locked / valid blocks are known blocks
-	bi := w.Blocks[fmt.Sprintf("%x", rec.BlockID.Hash)]
+	bi := w.blockByID(rec.BlockID)
 	checkValid := func(what string) {
 		if rec.BlockID.IsZero() {
 			return
@@ -214,7 +214,7 @@ func (s *Safety) OnCommit(w *World, i int, rec consensus.VerifCommitRecord) {
 	if !okq {
 		w.Violate("C03:commit-without-quorum", i, "node %d commits %s at height %d without +2/3 precommits for it in one round", i, blockKey(rec.BlockID), h)
 	}
-	bi := w.Blocks[fmt.Sprintf("%x", rec.BlockID.Hash)]
+	bi := w.blockByID(rec.BlockID)
 	if bi != nil && bi.Invalid != "" {
 		w.Violate("C03:commit-invalid-block:"+bi.Invalid, i, "node %d commits a block that violates the rule %q", i, bi.Invalid)
 	} else if why := s.validRef(w, i, rec.Block, h); why != "" {
